@@ -88,6 +88,8 @@ func (s *scheduler) spawn(fn func(), pos string) *goroutineT {
 				s.finish(p.outcome, p.detail)
 			case targetPanic:
 				s.finish("panic", fmt.Sprintf("goroutine %d: panic: %s", g.id, toString(p.v)))
+			case rtPanic:
+				s.finish("panic", fmt.Sprintf("goroutine %d: %s", g.id, string(p)))
 			case exitPanic:
 				s.finish("exit", fmt.Sprintf("%d", int(p)))
 			case error:
